@@ -91,14 +91,15 @@ PB_STUB = [("crate::poly1305::poly1305_soft::Poly1305::blocks", "poly_blocks_stu
 SC_STUB = [("sha2::sha512::compress512", "compress512_log_stub")]
 
 
-def h_generichash(name, mlen, outlen, keylen):
+def h_generichash(name, mlen, outlen, keylen, call=None):
     nblocks = (1 if keylen else 0) + max(1, (mlen + 127) // 128)
+    call = call or "let r = crypto_generichash(&mut out, &m, %s);" % ("Some(&key)" if keylen else "None")
     return rs.hdr(("barrier", "fmt", "b2compress")) + r'''
 fn %(name)s() {
     let m: [u8; %(mlen)d] = kani::any(); let key: [u8; %(klen)d] = kani::any();
     wit!(W_0, &m[..if %(mlen)d < 160 { %(mlen)d } else { 160 }]); wit!(W_1, &key);
     let mut out = [0u8; %(outlen)d];
-    let r = crypto_generichash(&mut out, &m, %(keyarg)s);
+    %(call)s
     kani::cover!(r.is_ok(), "hashed");
     assert!(r.is_ok(), "B2_ACCEPT: digest length 16..=64 and key length 0 or 16..=64 are accepted");
     unsafe {
@@ -126,7 +127,7 @@ fn %(name)s() {
         let mut i = 0; while i < %(outlen)d { assert!(out[i] == ob[i], "B2_OUTPUT: digest = first digest_length bytes of the final chaining value"); i += 1; }
     }
 }
-''' % dict(name=name, mlen=mlen, outlen=outlen, klen=keylen, keyarg=("Some(&key)" if keylen else "None"), nblocks=nblocks)
+''' % dict(name=name, mlen=mlen, outlen=outlen, klen=keylen, call=call, nblocks=nblocks)
 
 
 def h_b2_reject(name, outlen, keylen):
@@ -142,9 +143,9 @@ fn %(name)s() {
 ''' % dict(name=name, ol=outlen, kl=keylen, keyarg=("Some(&key)" if keylen else "None"), ok=("true" if ok else "false"))
 
 
-def h_poly(name, mlen, via):
-    call = {"oneshot": "let mut mac = [0u8; 16]; crypto_onetimeauth(&mut mac, &m, &key);",
-            "verify": "let mac: [u8; 16] = kani::any(); let _ = crypto_onetimeauth_verify(&mac, &m, &key);"}[via]
+def h_poly(name, mlen, via, call=None):
+    call = call or {"oneshot": "let mut mac = [0u8; 16]; crypto_onetimeauth(&mut mac, &m, &key);",
+                    "verify": "let mac: [u8; 16] = kani::any(); let _ = crypto_onetimeauth_verify(&mac, &m, &key);"}[via]
     return rs.hdr(("barrier", "fmt"), extra=PB_STUB) + r'''
 fn %(name)s() {
     let m: [u8; %(mlen)d] = kani::any(); let key: [u8; 32] = kani::any();
@@ -167,7 +168,8 @@ fn %(name)s() {
 ''' % dict(name=name, mlen=mlen, call=call)
 
 
-def h_hmac(name, mlen):
+def h_hmac(name, mlen, call=None):
+    call = call or "crypto_auth(&mut mac, &m, &key);"
     padded = ((128 + mlen + 17 + 127) // 128) * 128
     nin = padded // 128
     return rs.hdr(("barrier", "fmt"), extra=SC_STUB) + r'''
@@ -175,7 +177,7 @@ fn %(name)s() {
     let m: [u8; %(mlen)d] = kani::any(); let key: [u8; 32] = kani::any();
     wit!(W_0, &m); wit!(W_1, &key);
     let mut mac = [0u8; 32];
-    crypto_auth(&mut mac, &m, &key);
+    %(call)s
     kani::cover!(true, "returned");
     unsafe {
         // identify the two chains by their first block (ipad / opad), whatever order the code hashes them in
@@ -211,7 +213,7 @@ fn %(name)s() {
         i = 0; while i < 32 { assert!(mac[i] == oh[i], "HMAC_TRUNCATION: the authenticator is the first 32 bytes of the outer digest"); i += 1; }
     }
 }
-''' % dict(name=name, mlen=mlen, nin=nin, padded=padded)
+''' % dict(name=name, mlen=mlen, nin=nin, padded=padded, call=call)
 
 
 H_VERIFY = r'''
